@@ -410,3 +410,5 @@ def run(ctx):
     rule_a(ctx, R, scan, uniform_arg)
     rule_b(ctx, R, sector, scan, uniform_arg)
     rule_c(ctx, R, sector, scan_site)
+    from .kernels import run_c06d
+    run_c06d(ctx)
